@@ -124,7 +124,7 @@ def c04(tier):
     rng = random.Random(vlib.SEED)
     S = scen.Script()
     chans = (1, 2) if tier == "quick" else (1, 2, 5)
-    rates = [RATE] if tier == "quick" else [RATE, 1, 44100, 65536]
+    rates = [RATE, 16777217, 2147483647] if tier == "quick" else [RATE, 1, 7, 44100, 65535, 65536, 16777216, 16777217, 20000000, 2147483647]
     for rate in rates:
         for fmt, ch in formats.writable(exe, chans=chans, rate=rate):
             B = scen.block_hint(fmt, ch, rate)
@@ -180,6 +180,23 @@ def c05(tier):
             if scen.is_granular(fmt):
                 S.add("seek 1 0 0", "read 1 r i %d" % (3 * ch * 8), "read 1 r i 5", "read 1 r i %d" % (100000))
             S.add("close 1")
+    # requests larger than the 8 KiB staging buffers with more data following (every encoding, all four caller types)
+    bigs = [8193, 10000, 12289, 16385] if tier == "quick" else [4097, 8191, 8193, 10000, 12289, 16383, 16385, 20001]
+    for fmt, ch in _fmts(exe, tier, (1, 2) if tier == "quick" else (1, 2, 3)):
+        if scen.major(fmt) == scen.SD2:
+            continue
+        B = scen.block_hint(fmt, ch, RATE)
+        T0 = gen_core.type_for(fmt)
+        lc = scen.lossless_class(fmt, T0)
+        cls, par = lc if lc else ("noise", 0)
+        N = 45000 // ch
+        S.scn(fmt="0x%x" % fmt, ch=ch, T=T0, N=N, kind="bigreq", nodata=0)
+        S.add("file 1 new", "open 0 vio w 1 %d %d %d" % (fmt, ch, RATE), "write 0 %s f %d gen %s %d %d" % (T0, N, cls, rng.randint(1, 10 ** 6), par), "close 0",
+              "open 1 vio r 1 %d %d %d" % (fmt if scen.major(fmt) == scen.RAW else 0, ch, RATE))
+        for T in "sifd":
+            sz = rng.choice(bigs)
+            S.add("seek 1 0 0", "read 1 %s i %d" % (T, (sz // ch) * ch), "read 1 %s f 3" % T, "seek 1 0 1")
+        S.add("close 1")
     mcs = [gen_core.mc_rw("R", 2, tag=tier[0]), gen_core.mc_rw("W", 0, tag=tier[0], maxwrites=1 if tier == "quick" else 2)]
     return core_check("C05", tier, mcs, S.lines, "DESIGN.md section 6 C05",
                       "all formats x channels x caller types x item/frame/raw variants x request sizes (1, odd, block+-1, staging buffer edges 2047..4097, beyond the end) x positions (0, mid block, F-1, F); guard-banded buffers, ASan", t0)
@@ -251,6 +268,7 @@ def c09(tier):
             for mode in ("r", "w", "rw"):
                 for rep in range(2 if tier == "quick" else 5):
                     gen_core.invalid_calls(S, fmt, ch, RATE, mode, rng)
+                gen_core.invalid_probe(S, fmt, ch, RATE, mode, rng)
     # failing opens: unknown formats, zero channels, garbage input
     S.scn(kind="badopen")
     S.add("file 1 new", "open 0 vio w 1 0 1 8000", "open 0 vio w 1 0x10002 0 8000", "open 0 vio w 1 0x10002 1 0", "open 0 vio w 1 0x19990002 1 8000",
@@ -285,9 +303,9 @@ def c07(tier):
     chans = (1, 2) if tier == "quick" else (1, 2, 3)
     for fmt, ch in _fmts(exe, tier, chans):
         B = scen.block_hint(fmt, ch, RATE)
-        Ns = [2 * B + 1 if B > 1 else 23] if tier == "quick" else [1, B + 1, 2 * B + 1 if B > 1 else 23, 4100]
+        Ns = ([2 * B, 2 * B + 1] if B > 1 else [23]) if tier == "quick" else [1, B, B + 1, 2 * B, 2 * B + 1 if B > 1 else 23, 4100]
         for N in Ns:
-            gen_env.c07_scenarios(S, fmt, ch, RATE, N, rng, nparts=5 if tier == "quick" else 9,
+            gen_env.c07_scenarios(S, fmt, ch, RATE, N, rng, nparts=8 if tier == "quick" else 14,
                                   Ts=None if tier == "quick" else list(dict.fromkeys([gen_core.type_for(fmt), "s", "f"])))
     mcs = [gen_core.mc_rw("W", 0, tag=tier[0], maxwrites=2)]
     return core_check("C07", tier, mcs, S.lines, "DESIGN.md section 6 C07",
@@ -307,6 +325,8 @@ def c11(tier):
         for auto in (0, 1):
             for rep in range(1 if tier == "quick" else 3):
                 gen_env.c11_scenarios(S, fmt, ch, RATE, rng, auto, nsteps=3 if tier == "quick" else 6)
+                if scen.is_granular(fmt):
+                    gen_env.c11_overwrite(S, fmt, ch, RATE, rng, auto)
     mcs = [gen_core.mc_rw("W", 0, tag=tier[0], maxwrites=2)]
     return core_check("C11", tier, mcs, S.lines, "DESIGN.md section 6 C11",
                       "every format with a vio-writable header (ALAC and SD2 excluded) x channels x {explicit SFC_UPDATE_HEADER_NOW, auto mode}: after every update the backing store is copied and opened by a second handle: parameters, frame count = whole blocks of the frames written so far (FramesInImage), data = prefix (shared content), and the finished file is byte identical to a twin written without updates",
@@ -333,6 +353,9 @@ def c19(tier):
         gen_env.c19_scenario(S, pick, RATE, rng, "rr" if i % 4 == 0 else "random")
     for fmt, ch in (fam if tier == "quick" else allf):
         gen_env.c19_readers(S, fmt, ch, RATE, rng, nreaders=3)
+    # every encoding: readers of different files of the same kind, interleaved seeks across all blocks
+    for fmt, ch in ([x for x in allf if x[1] == 1] if tier == "quick" else allf):
+        gen_env.c19_codec_pairs(S, fmt, ch, RATE, rng, k=2 if tier == "quick" else 3, steps=12 if tier == "quick" else 30)
     mcs = [gen_core.mc_rw("RW", 2, tag=tier[0], maxwrites=1)]
     return core_check("C19", tier, mcs, S.lines, "DESIGN.md section 6 C19",
                       "2..8 handles on distinct backing stores (same-codec sets, codec-family mixes, random formats), calls merged at random or round robin, each handle validated against its own model state; then every workload again alone: same data and byte identical files (SameBytesOK); plus several interleaved readers of one file sharing the content map (decoder state per handle)",
